@@ -336,6 +336,7 @@ func (e *remoteEngine) Exec(line string) (string, string) {
 }
 
 func (e *remoteEngine) Generate(c *Ctx) {
+	c.Guard = true // a fatal runtime error in the real code leaves the op in pending.txt
 	for _, sc := range []string{"refused", "refused-limit0", "recover", "cut-mid", "cut-prefix", "cut-mid-limit0"} {
 		c.Case("rm " + sc)
 		c.R.Nontrivial()
